@@ -243,9 +243,24 @@ Step ==
     /\ i' = i + 1
     /\ UNCHANGED tid
 
+\* A divergence after the file re-based X, Y or Z with G92 happens in the frame of open finding
+\* D11: the implementation tracks a wrongly shifted position there (which the model mirrors), but
+\* the generators keep their border margins in the true frame, so the shifted point can land on a
+\* region border, where binary floating point and the model's integers may disagree.  Such a
+\* trace says nothing about conformance and is reported as unmodelled.
+ShiftedBefore(k) ==
+    \E n \in 1..(k - 1) :
+        LET ev == Traces[tid].ev[n]
+        IN  ev.ev = "g" /\ ev.in.code = "G92" /\ HasXYZ(ev.in)
+
+Final ==
+    IF verdict.c = "diverged" /\ ShiftedBefore(verdict.s)
+    THEN [verdict EXCEPT !.c = "unmodelled", !.f = "g92xyz-frame:" \o verdict.f]
+    ELSE verdict
+
 Done ==
     /\ i = Len(Traces[tid].ev) + 1
-    /\ TLCSet(2, Append(TLCGet(2), [id |-> Traces[tid].id, t1 |-> verdict]))
+    /\ TLCSet(2, Append(TLCGet(2), [id |-> Traces[tid].id, t1 |-> Final]))
     /\ i' = i + 1
     /\ UNCHANGED <<tid, ps, verdict>>
 
